@@ -290,6 +290,26 @@ func checkC20(c *Ctx) {
 		})
 		c.Check(s.Eq(FullSet()), "C20-T7", "PrepareForDisplay->Analyse", pd.Pos(), "Analyse attempted for every type",
 			fmt.Sprintf("Analyse is not reached for %v", FullSet().Minus(s)))
+		// ... and for every message of that type: the only guard is "not analysed yet"
+		eachInstr(pd, func(ins ssa.Instruction) {
+			if f := staticCallee(ins); f == nil || f.Name() != "Analyse" {
+				return
+			}
+			for _, ft := range dominatingFacts(ins.Block()) {
+				okGuard := false
+				if bo, ok := ft.Cond.(*ssa.BinOp); ok && (bo.Op == token.EQL || bo.Op == token.NEQ) {
+					x, y := bo.X, bo.Y
+					if isNilConst(x) {
+						x, y = y, x
+					}
+					if fv, _ := loadedField(x); fv != nil && fv.Name() == "Readable" && isNilConst(y) {
+						okGuard = true
+					}
+				}
+				c.Check(okGuard, "C20-T7", "PrepareForDisplay:guard", ins.Pos(), "full decoding is skipped only for a message that has been analysed already",
+					"full decoding is skipped under a condition other than \"already analysed\" (e.g. an error text set by the handler, as for SBAS/QZSS/NavIC MSMs or an illegal timestamp): decoding is not attempted for every message of the MSM4/MSM7/1005/1006 types")
+			}
+		})
 	} else {
 		c.Unresolved("C20-T7", "func rtcm/handler.PrepareForDisplay")
 	}
